@@ -56,6 +56,13 @@ def main(argv):
         for m in fid["mismatches"][:5]:
             problems.append("fidelity mismatch: %s" % (m,))
 
+    import glob
+
+    for old in glob.glob(os.path.join(common.ROOT, "replays", prop, "*.json")):
+        try:
+            os.unlink(old)
+        except OSError:
+            pass
     obligations = h.obligations(tier, seed)
     results = common.run_obligations(h, obligations)
 
